@@ -3,6 +3,7 @@ package store
 import (
 	"context"
 	"fmt"
+	"time"
 
 	"github.com/tailscale/setec/client/setec"
 
@@ -173,6 +174,67 @@ func checkLookupAnswers(rep *report.Report) {
 			sec.Samples = append(sec.Samples, fmt.Sprintf("%s -> err=%v installed=%v polled=%v", desc, lerr, installed, polled))
 			st.Close()
 		}
+	}
+	sec.States, sec.Transitions = sec.Evaluations, sec.Evaluations
+}
+
+// checkLookupsOffKeepsCache (C19): a process that runs with lookups disabled in between two that run
+// with lookups enabled shares their cache: it must not drop what it has not declared - nothing is
+// dropped except by the expiry rule, at a poll.
+func checkLookupsOffKeepsCache(rep *report.Report) {
+	sec := rep.Add(&report.Section{Name: "three-processes-one-cache-lookups-off-in-between", Engine: "enum", Exhaustive: true, Extra: map[string]int64{},
+		Rule: "expiry age {none, 1 h}: process A (lookups enabled) looks up an undeclared secret and reads it at t=10 s, closes; process B (lookups disabled, same declared secret, same cache) starts at t=20 s, polls, closes; process C (lookups enabled) starts at t=30 s and polls: the undeclared secret must still be in the cache after B and be served by C; non-trivial = all"})
+	for _, age := range []time.Duration{0, time.Hour} {
+		sec.Evaluations++
+		sec.Nontrivial++
+		desc := fmt.Sprintf("expiry age %v", age)
+		svc := NewSvc()
+		svc.Put("d")
+		svc.Put("plum")
+		c := &HCache{}
+		clock := epoch
+		mk := func(lookup bool) (*setec.Store, error) {
+			return setec.NewStore(context.Background(), setec.StoreConfig{Client: svc, Secrets: []string{"d"}, AllowLookup: lookup, Cache: c, ExpiryAge: age,
+				PollTicker: &hTicker{ch: make(chan time.Time)}, Logf: func(string, ...any) {}, TimeNow: func() time.Time { return clock }})
+		}
+		bad := func(kind, msg string) {
+			rep.Violate(sec.Name, "lookups-off/"+kind+": "+desc, desc+": "+msg, map[string]any{"cache": string(c.Data)})
+		}
+		a, err := mk(true)
+		if err != nil {
+			panic(err)
+		}
+		clock = epoch.Add(10 * time.Second)
+		h, err := a.LookupSecret(context.Background(), "plum")
+		if err != nil {
+			panic(err)
+		}
+		want := string(h.Get())
+		a.Close()
+		clock = epoch.Add(20 * time.Second)
+		b, err := mk(false)
+		if err != nil {
+			bad("process-b-start", err.Error())
+			continue
+		}
+		b.Refresh(context.Background())
+		b.Close()
+		if doc, perr := parseCache(c.Data); perr != nil || doc["plum"] == nil || doc["plum"].Secret == nil {
+			bad("dropped-from-cache", fmt.Sprintf("after the process with lookups disabled the cache no longer holds the undeclared secret (read 10 s earlier): %q", report.Clip(string(c.Data), 200)))
+		}
+		clock = epoch.Add(30 * time.Second)
+		cst, err := mk(true)
+		if err != nil {
+			bad("process-c-start", err.Error())
+			continue
+		}
+		cst.Refresh(context.Background())
+		if _, ok := cst.VerifDump()["plum"]; !ok {
+			bad("dropped-from-store", "the third process no longer knows the undeclared secret")
+		} else if hh, err := cst.LookupSecret(context.Background(), "plum"); err != nil || string(hh.Get()) != want {
+			bad("value", fmt.Sprintf("the third process serves %v for the undeclared secret, want %q", err, want))
+		}
+		cst.Close()
 	}
 	sec.States, sec.Transitions = sec.Evaluations, sec.Evaluations
 }
